@@ -97,22 +97,24 @@ Example inner2_extras :
   /\ decode env0 sid_verifidl_Inner (encode env0 sid_verifidl_Inner (VStruct inner2)) = DOk (VStruct inner2) [].
 Proof. vm_compute. split; reflexivity. Qed.
 
-(* C05 on the code's schemas: the model's fuel never runs out on any bytes for every generated struct type that
-   fits the model; the struct types without vector/array members decode any bytes to a value or an error *)
+(* C05 on the code's schemas: every generated struct type - ANY bytes, any target - never panics and never lets a
+   count beyond the bytes left reach an allocation; the model's fuel never runs out for every generated struct
+   type that fits the model, so those decode any bytes to a value or an error *)
+Theorem env0_no_panic : forall sid prior bs, ok_out (decode_into env0 sid prior bs).
+Proof. exact (decode_no_panic env0). Qed.
 Theorem env0_fuel : forall sid prior bs, fits_model sid = true -> decode_into env0 sid prior bs <> DFuel.
 Proof. intros sid prior bs Hm. destruct (fits_model_spec sid Hm) as [Hfin Hn]. apply (decode_fuel env0 8); [assumption|lia]. Qed.
-Theorem env0_total : forall sid prior bs, safe_ty 8 env0 (TStruct sid) = true -> fits_model sid = true ->
-  total_out (decode_into env0 sid prior bs).
+Theorem env0_total : forall sid prior bs, fits_model sid = true -> total_out (decode_into env0 sid prior bs).
 Proof.
-  intros sid prior bs Hs Hm. destruct (fits_model_spec sid Hm) as [_ Hn]. apply (decode_total env0 8); [assumption|lia].
+  intros sid prior bs Hm. destruct (fits_model_spec sid Hm) as [Hfin Hn]. apply (decode_total env0 8); [assumption|lia].
 Qed.
-(* e.g. the scalar test struct and the endpoint/auth structs are total on all bytes; the request packet is not
-   (its byte vector can arrive as a LIST: the recorded finding) *)
-Example env0_safe_examples :
-  forallb (fun sid => safe_ty 8 env0 (TStruct sid) && fits_model sid)
-          [sid_verifidl_Scalars; sid_endpointf_EndpointF; sid_authf_BasicAuthInfo; sid_authf_TokenKey; sid_statf_StatMicMsgHead] = true
-  /\ safe_ty 8 env0 (TStruct sid_requestf_RequestPacket) = false.
-Proof. vm_compute. split; reflexivity. Qed.
+(* e.g. the packet types every process decodes from the network (byte vectors, maps) and the test IDL's container
+   struct (vectors, maps, fixed arrays) are total on all bytes *)
+Example env0_total_examples :
+  forallb fits_model [sid_requestf_RequestPacket; sid_requestf_ResponsePacket; sid_verifidl_Containers;
+                      sid_verifidl_Scalars; sid_endpointf_EndpointF; sid_authf_BasicAuthInfo; sid_authf_TokenKey;
+                      sid_statf_StatMicMsgHead] = true.
+Proof. vm_compute. reflexivity. Qed.
 
 (* C06 on the code's schemas: the prefix theorem for every generated struct type all of whose members are scalar *)
 Definition flat_b (fds : schema) : bool := forallb (fun fd => scalar_ty (fty fd)) fds.
